@@ -29,14 +29,25 @@ def run_check(prop, tier, seed):
     # 2. conformance: scenarios -> real code -> traces -> TLC
     driver = core.build_driver(work)
     violations, known_hits, foreign = [], [], []
-    scens = gen.generate(prop, tier, seed)
+    parts = P.get('parts') or [dict(gen=None, trace_spec=P.get('trace_spec', 'GoatTrace.tla'))]
+    scens, traces, notes, rej = [], [], [], []
+    accepted = tstates = 0
+    for pi, part in enumerate(parts):
+        ps = gen.generate(prop, tier, seed, part.get('gen'), first=len(scens) + 1)
+        log('[gen] part %d (%s): %d scenarios' % (pi, part['trace_spec'], len(ps)))
+        pwork = os.path.join(work, 'part%d' % pi)
+        os.makedirs(pwork, exist_ok=True)
+        ptr, pnotes = core.run_scenarios(driver, ps, pwork, shard_size=part.get('shard_size'))
+        log('[run] %d shards, %d worker restarts, %.1fs' % (len(ptr), len(pnotes), time.time() - t0))
+        acc, st, prej = core.validate_traces(part['trace_spec'], ptr, pwork)
+        log('[tlc] %d segments accepted, %d rejected, %d trace states, %.1fs' % (acc, len(prej), st, time.time() - t0))
+        scens += ps
+        traces += ptr
+        notes += pnotes
+        rej += prej
+        accepted += acc
+        tstates += st
     by_sc = {s['sc']: s for s in scens}
-    log('[gen] %d scenarios' % len(scens))
-    traces, notes = core.run_scenarios(driver, scens, work)
-    log('[run] %d shards, %d worker restarts, %.1fs' % (len(traces), len(notes), time.time() - t0))
-    spec = P.get('trace_spec', 'GoatTrace.tla')
-    accepted, tstates, rej = core.validate_traces(spec, traces, work)
-    log('[tlc] %d segments accepted, %d rejected, %d trace states, %.1fs' % (accepted, len(rej), tstates, time.time() - t0))
     notes_by_sc = {}
     for n in notes:
         notes_by_sc.setdefault(n['sc'], []).append(n)
